@@ -7,6 +7,7 @@ import Exetera.Lemmas.GenKernelsSpansFilter
 import Exetera.Lemmas.GenKernelsSpans2Fields
 import Exetera.Lemmas.GenKernelsSpansIndexed
 import Exetera.Lemmas.GenKernelsSpansMulti
+import Exetera.Lemmas.GenKernelsSpansIdxMaxIndexed
 /-!
   C08 over the TRANSLATED kernels.  `Gen/Kernels.lean` is regenerated from exetera/core/operations.py by
   tools/translate_njit.py on every run; the theorems below are therefore re-checked against what the source says NOW.
@@ -310,5 +311,49 @@ theorem gen_get_spans_indexed_eq_spec (indices values : List Nat) (hv : ValidInd
 
 example : _get_spans_for_index_string_field.run [0, 1, 3, 5, 5, 5] [97, 97, 32, 97, 32] = .ok [0, 1, 3, 5] := rfl
 example : _get_spans_for_index_string_field.run [] [] = .ok [0] := rfl
+
+/-! ## apply_spans_index_of_min_indexed / _max_indexed (three nested loops, the byte loop with `break`)
+
+  The hand model computes the row lengths `curend - curstart` in `Nat` (truncated at 0), the code in signed arithmetic: the two
+  agree exactly when consecutive offsets never decrease (`GenK.NonDecreasing`), which every index of an IndexedStringField
+  satisfies (`ValidIndex`).  The refinement is therefore stated under that hypothesis — for EVERY span array and value array
+  (malformed ones included: same array or same error class). -/
+
+theorem gen_apply_spans_index_of_min_indexed_refines (sp indices values : List Nat) (hmono : NonDecreasing indices) :
+    Sim (apply_spans_index_of_min_indexed.run (ints sp) (ints indices) (ints values) none)
+      (applySpansIndexOfMinIndexed .repaired sp indices values) :=
+  apply_spans_index_of_min_indexed_refines sp indices values hmono
+
+theorem gen_apply_spans_index_of_max_indexed_refines (sp indices values : List Nat) (hmono : NonDecreasing indices) :
+    Sim (apply_spans_index_of_max_indexed.run (ints sp) (ints indices) (ints values) none)
+      (applySpansIndexOfMaxIndexed sp indices values) :=
+  apply_spans_index_of_max_indexed_refines sp indices values hmono
+
+/-- the statement of `C08.apply_spans_index_of_min_indexed_eq` for the translated kernel: for a well-formed index and
+    well-formed spans it returns `.ok` (no subscript of `spans` / `src_indices` / `src_values` out of range or negative, all three
+    loops finish), one entry per span, the row number of the FIRST lexicographically minimal row of the span -/
+theorem gen_apply_spans_index_of_min_indexed_eq (sp indices values : List Nat) (hv : ValidIndex indices values)
+    (h : Wellformed sp (indices.length - 1)) :
+    ∃ r, apply_spans_index_of_min_indexed.run (ints sp) (ints indices) (ints values) none = .ok r ∧
+      r.length = (pairs sp).length ∧
+      ∀ pv ∈ (pairs sp).zip r, ∃ k : Nat, pv.2 = (k : Int) ∧ IsFirstMinIn (decodeRows indices values) pv.1.1 pv.1.2 k := by
+  obtain ⟨r, hr, rest⟩ := C08.apply_spans_index_of_min_indexed_eq sp indices values hv h
+  exact ⟨r, (apply_spans_index_of_min_indexed_refines sp indices values (nonDecreasing_of_pairwise hv.1)).ok_right hr, rest⟩
+
+theorem gen_apply_spans_index_of_max_indexed_eq (sp indices values : List Nat) (hv : ValidIndex indices values)
+    (h : Wellformed sp (indices.length - 1)) :
+    ∃ r, apply_spans_index_of_max_indexed.run (ints sp) (ints indices) (ints values) none = .ok r ∧
+      r.length = (pairs sp).length ∧
+      ∀ pv ∈ (pairs sp).zip r, ∃ k : Nat, pv.2 = (k : Int) ∧ IsFirstMaxIn (decodeRows indices values) pv.1.1 pv.1.2 k := by
+  obtain ⟨r, hr, rest⟩ := C08.apply_spans_index_of_max_indexed_eq sp indices values hv h
+  exact ⟨r, (apply_spans_index_of_max_indexed_refines sp indices values (nonDecreasing_of_pairwise hv.1)).ok_right hr, rest⟩
+
+-- rows "b", "ab", "a", "a": min is row 2 (the first "a"), max is row 0
+example : apply_spans_index_of_min_indexed.run [0, 4] [0, 1, 3, 4, 5] [98, 97, 98, 97, 97] none = .ok [2] ∧
+    apply_spans_index_of_max_indexed.run [0, 4] [0, 1, 3, 4, 5] [98, 97, 98, 97, 97] none = .ok [0] := ⟨rfl, rfl⟩
+example : NonDecreasing [0, 1, 3, 4, 5] := nonDecreasing_of_pairwise (by decide)
+-- the hypothesis is needed: on decreasing offsets (row 0 empty, row 1 of "length" 0 - 1 = -1) the code prefers row 1, the model row 0
+example : apply_spans_index_of_min_indexed.run [0, 2] [1, 1, 0] [97] none = .ok [1] ∧
+    applySpansIndexOfMinIndexed .repaired [0, 2] [1, 1, 0] [97] = .ok [0] := ⟨rfl, rfl⟩
 
 end Exetera.Props.C08Gen
